@@ -73,6 +73,21 @@ Theorem C12_rotational_convection_vanishes_on_laminar_states : forall (F : Field
 Proof. intros. apply projected_conv_laminar; assumption. Qed.
 Print Assumptions C12_rotational_convection_vanishes_on_laminar_states.
 
+(* ... and for the SOURCE text of the two Kolmogorov nonlinear functions (Gen/NonlinFuns.v, tied in Tie/NonlinTie.v): on the laminar
+   subspace the source returns exactly its forcing array (the convection part vanishes), in 2D for every state supported on k_0 = 0 and in 3D
+   for every velocity (u_0(x_1), 0, 0) *)
+From EXV Require Import Gen.NonlinFuns Tie.NonlinTie Tie.LaminarTie.
+Theorem C12_code_terms_reduce_to_the_forcing_on_laminar_states : forall (F : FieldT) (N Kc : Z) (ii s ND b : F) (w u0 inj : field F)
+    (injs : list (field F)) (i : nat) (k : list Z),
+  (0 < N)%Z -> (0 <= Kc)%Z -> (2 * Kc < N)%Z -> ii <> 0 -> s <> 0 ->
+  ((forall x, nth 0 x 0%Z <> 0%Z -> w x = 0) ->
+     gen_vorticity_conv_kolmogorov F (msk F Kc) (prod2 F 2 N Kc) (prod3 F 2 N Kc) ii s 2 ND b inj w k = inj k)
+  /\ ((forall x, nth 0 x 0%Z <> 0%Z \/ nth 2 x 0%Z <> 0%Z -> u0 x = 0) -> (i < 3)%nat -> length k = 3%nat ->
+     nth i (gen_projected_conv_kolmogorov F (msk F Kc) (prod2 F 3 N Kc) (prod3 F 3 N Kc) ii s 3 ND injs [u0; fzero F; fzero F]) (fzero F) k
+     = nth i injs (fzero F) k).
+Proof. intros. apply laminar_source_terms; assumption. Qed.
+Print Assumptions C12_code_terms_reduce_to_the_forcing_on_laminar_states.
+
 (* when the nonlinear term returns the forcing f on the laminar subspace, every tableau is u' = E u + h phi1(z) f there ... *)
 Theorem C12_forced_step : forall (F : FieldT) (I : Type) (h : F) (z E Eh f : I -> F) (N : (I -> F) -> (I -> F)),
   (forall v, Sub F I f v -> forall k, N v k = f k) ->
